@@ -185,10 +185,12 @@ def nt_c07(prog, out, monline=""):
 PROPS["C07"] = dict(
     title="Operator chains are bracketed by the documented priority table",
     projection="stacks_verdict",
-    extra_files=["C07b"],
-    monitor="C07",
+    extra_files=["C07b", "C07c"],
+    monitors=[("C07", "accepted"), ("C07s", "accepted_wf")],
     domain="accepted",
-    rule="corpus + generated programs + the chain stream (functions whose lets are operator chains over extension "
+    rule="every accepted well-formed program: at every use site (let, assignment, call argument, return, condition sides) "
+         "the shape of the tree read back from the stack is the shape of the source expression bracketed by Spec/Bracket "
+         "(chk_C07_shape; with C06 the tree itself); and corpus + generated programs + the chain stream (functions whose lets are operator chains over extension "
          "leaves: all priority-class chains up to the tier's length bound, random longer ones); non-trivial = accepted "
          "program with at least one let initialiser of >= 2 operators whose leaves are extension leaves or bracketed "
          "chains of them (the monitor then reads the emitted operations back as a tree and compares it with the "
@@ -196,7 +198,8 @@ PROPS["C07"] = dict(
     nontrivial=nt_c07,
     assumptions=["priority table and MAX level are regenerated from /repo/src/ast.rs on every run (coq/Gen/Priority.v)",
                  "run_emitted_tree_is_bracket: on accepted runs the emitted operations, read back through their register "
-                 "operands, are the independently computed well-bracketed tree (the model always passes chk_C07)"],
+                 "operands, are the independently computed well-bracketed tree (the model always passes chk_C07)",
+                 "run_emitted_shape_is_bracket: the same for every leaf kind and every statement position (chk_C07_shape)"],
 )
 
 
@@ -265,8 +268,8 @@ def cross_C16(run):
             continue
         b = m["base"]
         ob, oq = run.impl[b], run.impl[i]
-        if ob.startswith("(panic") or oq.startswith("(panic"):
-            continue
+        if not ob.startswith("(out") or not oq.startswith("(out"):
+            continue        # a run that panicked or produced nothing is C13's (or the pipeline's) business
         tb, tq = parse(ob), parse(oq)
         pb, pq = parse(run.programs[b]), parse(run.programs[i])
         pairs += 1
@@ -313,7 +316,7 @@ def cross_C17(run):
             by_base.setdefault(m["base"], {})[m["keep"]] = i
     for b, var in by_base.items():
         outs = [run.impl[b]] + [run.impl[i] for i in var.values()]
-        if any(o.startswith("(panic") or o.startswith("(missing") for o in outs) or None not in var:
+        if any(not o.startswith("(out") for o in outs) or None not in var:
             continue
         groups += 1
         tb = parse(run.impl[b])
@@ -787,7 +790,7 @@ def lints():
         "mutations in %s" % sorted(set(str(x) for x in muts)))
     # 3. every body starts from a parentless block
     add("function_body starts from BlockState::new(None)",
-        re.search(r"pub fn function_body[\s\S]{0,400}?BlockState::new\(None\)", code) is not None,
+        re.search(r"pub fn function_body[\s\S]{0,400}?BlockState::new\((?:None|Option::None|Default::default\(\))\)", code) is not None,
         ["C17", "C09", "C12", "C10"])
     # 4. run = three passes over data: imports+types, declarations, bodies (private helpers that
     # run calls are expanded in place, so that splitting run into run_xxx methods changes nothing)
@@ -915,6 +918,10 @@ def judge(prop, prog, impl, model, monline):
     spec = PROPS[prop]
     agree = True
     where = ""
+    if impl.startswith("(nobuild"):
+        # the harness could not even build the program (the library's codec refuses an identifier):
+        # nothing was observed for this program, for any property
+        return {"agree": False, "where": "program could not be built: " + impl[:200], "monitor": None}
     if impl.startswith(("(panic", "(missing")) and prop != "C13":
         # a panicking run is outside the domain of every property but C13 ("on which the analysis
         # terminates"); C13 is the property that judges it
